@@ -266,6 +266,11 @@ class USBInTransferManager(Elaboratable):
             with m.State("WAIT_TO_SEND"):
                 m.d.usb += send_position .eq(0),
 
+                # Always pre-fetch the first byte of the packet while we wait: send_position may still
+                # hold the length of the previous packet in our first cycle here, and an IN token that
+                # arrives in that cycle would otherwise start the packet with a byte from that offset.
+                m.d.comb += buffer_read.addr.eq(0)
+
                 # If discarding data, go back to waiting for new data.
                 with m.If(self.discard):
                     # Undo the data PID toggle.
